@@ -4,11 +4,14 @@
   spawned — in the first period, after any number of lag periods, and the final one — is handed
   `c`, whatever `has_more()` reports at any time (i.e. for every progress pattern of the other
   workers); (c) a worker pulls with its chunk size for its whole life and the iterator hands out
-  consecutive blocks, so every pull has begin `k·c` and length `min c (len − k·c)`:
-  that part is `C11_pulls` in `Props/C01.lean`'s transition system (`Model/Run.lean`).
+  consecutive blocks, so every pull has begin `k·c` and length `min c (len − k·c)`
+  (`C11_pulls`, on the worker transition system of `Model/Run.lean`, for every schedule), hence
+  all positions of an aligned block are pulled by one worker (`C11_blocks`); `C11_end_to_end`
+  composes (b) and (c).
 -/
 import OrxPar.Lemmas.Settings
 import OrxPar.Lemmas.Spawn
+import OrxPar.Lemmas.Run
 namespace OrxPar
 
 /-- **C11 (resolved).** -/
@@ -34,6 +37,40 @@ theorem C11_next_chunk (r : Runner) (c n : Nat) (h : HasMore) (hc : r.chunk = .e
 theorem C11_workers (r : Runner) (lag : Nat) (env : Nat → HasMore) (c : Nat)
     (hc : r.chunk = .exact c) (s : Sp) (hr : spRun r lag env = some s) : ∀ w ∈ s.workers, w = c :=
   workers_exact r lag env (r.maxThreads + 1) c hc s hr
+
+/-- **C11 (pulls).** workers that all hold chunk size `c`, over a source of length `l`, under
+    every schedule (any interleaving of pulls and evaluations, early exit included): every pull
+    starts at a multiple of `c`, lies inside the source and takes exactly `min c (l − start)`
+    consecutive elements — i.e. `c`, except for the one pull that reaches the end -/
+theorem C11_pulls (src : Nat → Val) (l : Nat) (hit : Val → Bool) (n c : Nat) (hc : 0 < c)
+    (sched : List Nat) :
+    ∀ e ∈ (Run.run (Run.init src (some l) hit (List.replicate n c)) sched).log,
+      c ∣ e.start ∧ e.start < l ∧ e.items.length = Nat.min c (l - e.start) ∧
+      e.items = Run.slice src e.start (Nat.min c (l - e.start)) :=
+  Run.exact_pulls src l hit n c hc sched
+
+/-- **C11 (aligned blocks).** consequently every position of an aligned block `[k·c, (k+1)·c)`
+    belongs to the pull — hence to the worker — that holds the block's first position -/
+theorem C11_blocks (src : Nat → Val) (l : Nat) (hit : Val → Bool) (n c : Nat) (hc : 0 < c)
+    (sched : List Nat) (e : Chunk)
+    (he : e ∈ (Run.run (Run.init src (some l) hit (List.replicate n c)) sched).log) (i : Nat)
+    (hi : e.start ≤ i ∧ i < e.start + e.items.length) : i / c = e.start / c :=
+  Run.exact_blocks src l hit n c hc sched e he i hi
+
+/-- **C11 (end to end).** `Exact(c)` in the runner ⇒ whatever the spawner observes, the workers
+    it creates all hold `c` ⇒ under every schedule of those workers every pull is an aligned
+    block of exactly `c` elements (the last one possibly shorter) -/
+theorem C11_end_to_end (r : Runner) (lag : Nat) (env : Nat → HasMore) (c : Nat) (hc : 0 < c)
+    (hr : r.chunk = .exact c) (s : Sp) (hs : spRun r lag env = some s)
+    (src : Nat → Val) (l : Nat) (hit : Val → Bool) (sched : List Nat) :
+    ∀ e ∈ (Run.run (Run.init src (some l) hit s.workers) sched).log,
+      c ∣ e.start ∧ e.items.length = Nat.min c (l - e.start) := by
+  have hw : s.workers = List.replicate s.workers.length c :=
+    List.eq_replicate_iff.mpr ⟨rfl, C11_workers r lag env c hr s hs⟩
+  rw [hw]
+  intro e he
+  have := C11_pulls src l hit s.workers.length c hc sched e he
+  exact ⟨this.1, this.2.2.1⟩
 
 /-- non-vacuity: `Max(6)` over 100 elements with `Exact(3)`, workers progressing between the
     spawner's observations: six workers, all with chunk 3 -/
